@@ -2,7 +2,7 @@
 cd "$(dirname "$0")/.."; mkdir -p /tmp/sc
 echo "== checks"; for i in C01 C02 C03 C04 C05 C06 C07 C08 C09 C10 C11 C12 C13 C14 C15 C16 C18; do ./check $i > /tmp/o.$i 2>&1; rc=$?; [ $rc -ne 0 ] && echo "$i rc=$rc $(tail -1 /tmp/o.$i | cut -c1-110)"; done
 echo "== refactors"
-ls -d refactors/*/ | grep -v obsolete | while read d; do n=$(basename $d); echo $n; done > /tmp/reflist
+ls -d refactors/*/ | grep -v "obsolete\|limit-" | while read d; do n=$(basename $d); echo $n; done > /tmp/reflist
 cat /tmp/reflist | xargs -P 4 -I{} sh -c 'tools/refcheck.sh refactors/{}/patch.diff > /tmp/sc/ref-{}.out 2>&1'
 for n in $(cat /tmp/reflist); do echo "$n: $(grep -E "ALARM|SUMMARY|PATCH|BUILD|REGEN|PINNED" /tmp/sc/ref-$n.out | tr '\n' ' ' | cut -c1-160)"; done
 echo "== selftest"; python3 selftest/run.py 2>&1 | grep -v "^ok\|^quiet" | cut -c1-250 | head -30
